@@ -14,3 +14,12 @@ Print Assumptions C27_lookup_seed_refuted_sibling_branch.
 Theorem C27_refine_refuted_sibling_types : refine s_abcd 1 2 = None /\ family s_abcd 1 3 /\ family s_abcd 2 3.
 Proof. exact refine_sibling_types. Qed.
 Print Assumptions C27_refine_refuted_sibling_types.
+
+(* iterating a many-to-many collection typed K0, and reading a K0-typed reference of an unpickled object, hand out the placeholder
+   of a stored K3 object with class K0 (no refinement on these two paths) *)
+Theorem C27_collection_item_refuted : collection_item_class 0 3 <> 3 /\ family s_abcd 0 3.
+Proof. exact collection_item_unrefined. Qed.
+Print Assumptions C27_collection_item_refuted.
+Theorem C27_unpickled_reference_refuted : unpickled_ref_class 0 3 <> 3.
+Proof. exact unpickled_ref_unrefined. Qed.
+Print Assumptions C27_unpickled_reference_refuted.
